@@ -226,7 +226,7 @@ def work(job: Tuple[Tuple[str, str, int], int, bool]) -> Dict[str, Any]:
                     M = proto.members["M"]
                     obl.append(("capacity", ZInt.lift(M.members["x"].type.cap) == Nt))
                     obl.append(("option", ZInt.lift(M.members["max_bytes"].value) == Nt))
-                pats = {"c": r"#define N (\S+)", "go": r"const N int = (\S+)", "py": r"(?m)^N: int = (\S+)"}
+                pats = PATS
                 for lang, pat in pats.items():
                     m = re.search(pat, outs[lang])
                     if not m:
@@ -276,6 +276,10 @@ def work(job: Tuple[Tuple[str, str, int], int, bool]) -> Dict[str, Any]:
     return res
 
 
+# where the constant N is emitted; tolerant of spacing, an omitted type annotation, parentheses and C integer suffixes
+PATS = {"c": r"(?m)#[ \t]*define[ \t]+N[ \t]+\(?(⟦S\d+⟧|[0-9a-fA-Fx]+)[uUlL]*\)?", "go": r"(?m)^[ \t]*(?:const[ \t]+)?N(?:[ \t]+\w+)?[ \t]*=[ \t]*\(?([^\s()]+)\)?", "py": r"(?m)^N(?:[ \t]*:[ \t]*\w+)?[ \t]*=[ \t]*\(?([^\s()]+)\)?"}
+
+
 def _pyval(expr: str, env: Dict[str, Any], zv: Dict[str, Any], cv: Dict[str, int]) -> Optional[int]:
     """concrete evaluation by my evaluator (None if a guard fails)"""
     sub = [(zv[n], z3.IntVal(cv[n])) for n in cv]
@@ -298,7 +302,7 @@ def _confirm(shape: Any, tm: Any, cv: Dict[str, int], what: str, expr: str, env:
         f.write(ctext)
     want = _pyval(expr, env, zv, cv)
     got: Dict[str, Any] = {}
-    for lang, fn, pat in (("py", "main_bp.py", r"(?m)^N: int = (\S+)"), ("c", "main_bp.h", r"#define N (\S+)"), ("go", "main_bp.go", r"const N int = (\S+)")):
+    for lang, fn, pat in (("py", "main_bp.py", PATS["py"]), ("c", "main_bp.h", PATS["c"]), ("go", "main_bp.go", PATS["go"])):
         out = sc.path("out_" + lang)
         os.makedirs(out, exist_ok=True)
         r = compile_cli(sc.dir, "main.bitproto", lang, out, ["-q"])
@@ -489,7 +493,7 @@ def work_strings(_: Any) -> Dict[str, Any]:
 
     res = {"case": "strings", "messages": 1, "paths": 0, "queries": 0, "unsat": 0, "sat": 0, "unknown": 0, "solver_s": 0.0, "witness": 0, "witness_agree": 0, "violations": [], "inconclusive": [], "samples": [], "obligations": 0}
     q = tier() == "quick"
-    n_esc, n_emit, tmo = (3, 3, 40) if q else (5, 4, 400)
+    n_esc, n_emit, tmo = (3, 3, 150) if q else (5, 4, 600)  # per-condition CPU budget; a confirmed condition returns at once (3-10 s when the machine is idle)
     src = CH_HARNESS.replace("@COMPILER@", os.path.join(REPO, "compiler")).replace("@PLY@", PLY_DIR).replace("@N_ESC@", str(n_esc)).replace("@N_EMIT@", str(n_emit))
     with Scratch() as sc:
         hp = sc.path("c13_strings_harness.py")
@@ -646,6 +650,91 @@ def work_extent(n: int) -> Dict[str, Any]:
     return res
 
 
+SWEEP_CP = [1, 7, 8, 9, 10, 11, 12, 13, 27, 31, 32, 33, 34, 36, 37, 39, 47, 63, 64, 92, 96, 123, 125, 126, 127, 128, 133, 159, 160, 233, 255, 256, 0x3B1, 0x7FF, 0x800, 0x2028, 0x2029,
+            0xD7FF, 0xE000, 0xFEFF, 0xFFFD, 0xFFFF, 0x10000, 0x1D11E, 0x1F600, 0x10FFFF]
+
+
+def decode_literal_wide(lit: str) -> str:
+    """reference decoder for the sweep: what a double-quoted literal denotes in the COMMON subset of C, Go and Python source
+    text -- raw characters except quote, backslash, line breaks and NUL; the escapes of decode_literal; \\uXXXX and
+    \\UXXXXXXXX only where all three languages accept them (no surrogates; C additionally forbids universal character names
+    below U+00A0 other than $ @ `).  Anything else raises ValueError."""
+    if len(lit) < 2 or lit[0] != '"' or lit[-1] != '"':
+        raise ValueError("quotes")
+    body = lit[1:-1]
+    out = []
+    i = 0
+    simple = {"n": "\n", "t": "\t", "r": "\r", "\\": "\\", '"': '"', "'": "'"}
+    while i < len(body):
+        c = body[i]
+        if c in '"\n\r\0':
+            raise ValueError(f"raw {c!r} inside the literal")
+        if c != "\\":
+            out.append(c)
+            i += 1
+            continue
+        i += 1
+        if i >= len(body):
+            raise ValueError("dangling backslash")
+        e = body[i]
+        if e in simple:
+            out.append(simple[e])
+            i += 1
+        elif e in "uU":
+            n = 4 if e == "u" else 8
+            h = body[i + 1:i + 1 + n]
+            if len(h) != n or any(x not in "0123456789abcdefABCDEF" for x in h):
+                raise ValueError("malformed universal character name")
+            cp = int(h, 16)
+            if 0xD800 <= cp <= 0xDFFF or cp > 0x10FFFF:
+                raise ValueError(f"\\{e}{h}: surrogate / out of range (rejected by C and Go, a lone surrogate in Python)")
+            if cp < 0xA0 and cp not in (0x24, 0x40, 0x60):
+                raise ValueError(f"\\{e}{h}: not a valid universal character name in C")
+            out.append(chr(cp))
+            i += 1 + n
+        else:
+            raise ValueError(f"escape \\{e} is not common to C, Go and Python")
+    return "".join(out)
+
+
+def work_sweep(_: Any) -> Dict[str, Any]:
+    """(e) beyond CrossHair's alphabet (printable ASCII): a concrete, representative sweep -- no solver -- of the real
+    format_str_value of each language over control characters, DEL, Latin-1, BMP and non-BMP code points in five contexts."""
+    from ..compile import load_plain_compiler
+
+    res = {"case": "string-emission-sweep", "messages": 1, "paths": 0, "queries": 0, "unsat": 0, "sat": 0, "unknown": 0, "solver_s": 0.0, "witness": 0, "witness_agree": 0, "violations": [], "inconclusive": [], "samples": [], "obligations": 0}
+    load_plain_compiler()
+    from bitproto.renderer.impls.c.formatter import CFormatter
+    from bitproto.renderer.impls.go.formatter import GoFormatter
+    from bitproto.renderer.impls.py.formatter import PyFormatter
+
+    fm = {"c": CFormatter(), "go": GoFormatter(), "py": PyFormatter()}
+    for lang, f in fm.items():
+        bad = None
+        for cp in SWEEP_CP:
+            ch = chr(cp)
+            for value in (ch, "a" + ch + "b", ch + ch, "\\" + ch, ch + '"'):
+                res["obligations"] += 1
+                res["witness"] += 1
+                try:
+                    lit = f.format_str_value(value)
+                    got = decode_literal_wide(lit)
+                    ok, why = got == value, f"literal {lit!r} denotes {got!r}"
+                except ValueError as e:
+                    ok, why = False, f"literal {lit!r}: {e}"
+                except Exception as e:
+                    ok, why = False, f"{type(e).__name__}: {e}"
+                if ok:
+                    res["witness_agree"] += 1
+                elif bad is None:
+                    bad = (value, why)
+        if bad:
+            res["violations"].append({"what": f"strings: the {lang} literal emitted for the constant value {bad[0]!r} (U+{ord(bad[0][0]) if len(bad[0]) == 1 else 0:04X}..) does not denote it: {bad[1]}",
+                                      "payload": {"kind": "string-sweep", "lang": lang, "value": bad[0]}, "confirmed": True, "info": {"kind": "emit-string", "key": f"emit-string-{lang}"}})
+    res["samples"].append({"sweep_code_points": len(SWEEP_CP), "contexts": 5, "languages": 3})
+    return res
+
+
 def main() -> int:
     from .agg import run_parts
 
@@ -654,7 +743,7 @@ def main() -> int:
     jobs_a = [(s, i, False) for i, s in enumerate(sh)]
     flat = [s for s in sh if s[0].startswith("flat")]
     jobs_b = [(s, i + 1, True) for i, s in enumerate(flat)]
-    parts = [("expressions", work, jobs_a), ("capacity+option", work, jobs_b), ("booleans", work_bool, [0]), ("strings-crosshair", work_strings, [0]), ("string-token-extent", work_extent, list(range(0, 10 if q else 14)))]
+    parts = [("expressions", work, jobs_a), ("capacity+option", work, jobs_b), ("booleans", work_bool, [0]), ("strings-crosshair", work_strings, [0]), ("string-emission-sweep", work_sweep, [0]), ("string-token-extent", work_extent, list(range(0, 10 if q else 14)))]
     meta = {
         "functions_encoded": FILES,
         "bounds": "all expression shapes with <= 3 binary operators from + - * /, flat and with every parenthesisation (quick: all with <= 2 operators, every third with 3), operands rotating over decimal literal / hex literal / earlier constant / imported constant; operand values symbolic >= 0 (unbounded; with two or more of * / in a shape only the first two operands are symbolic, the others concrete literals); `/` asserted where dividend >= 0 and divisor > 0; strings: CrossHair, token bodies <= 3 (thorough 5) chars for the escape loop, values <= 3 (thorough 4) printable-ASCII/tab/CR/LF chars for emission; string token extent: an opening quote followed by up to 9 (thorough 13) symbolic characters in 1..126, all paths of the token regex under `re` match priorities",
@@ -671,6 +760,11 @@ def replay(path: str) -> int:
     import json
 
     p = json.load(open(path))
+    if p.get("kind") == "string-sweep":
+        r = work_sweep(0)
+        bad = [v for v in r["violations"] if v["payload"]["lang"] == p["lang"]]
+        print(bad[0]["what"] if bad else "passes: holds on this input now")
+        return 1 if bad else 0
     if p.get("kind") == "token-extent":
         nat, how = native_token_end(p["text"])
         print(f"real lexer: token of {p['text']!r} ends at {nat} ({how}); reference {p['want']}")
